@@ -21,6 +21,16 @@ ROOT = os.path.dirname(os.path.dirname(os.path.abspath(__file__)))
 REPO = os.environ.get("VERIF_REPO", "/repo")
 BUILD = os.path.join(ROOT, "build")
 COQ = os.path.join(ROOT, "coq")
+if os.path.realpath(REPO) != "/repo":
+    # a run against a scratch tree (tools/try_patch.sh) gets its own copy of the Coq development: the files generated from
+    # that tree (Generated/*.v) and whatever is rebuilt from them never touch the copy the checks of /repo use
+    import atexit
+    _rid = hashlib.sha256(REPO.encode()).hexdigest()[:10]
+    _scratch = os.path.join(BUILD, "coqtrees", "%s-%d" % (_rid, os.getpid()))
+    os.makedirs(os.path.dirname(_scratch), exist_ok=True)
+    subprocess.run(["rsync", "-a", "--delete", COQ + "/", _scratch + "/"], check=True)
+    COQ = _scratch
+    atexit.register(lambda: shutil.rmtree(_scratch, ignore_errors=True))
 NPROC = os.cpu_count() or 4
 
 GOENV = dict(os.environ, GOFLAGS="-mod=mod", GOPROXY="off", GOSUMDB="off", GOTOOLCHAIN="local",
